@@ -9,6 +9,7 @@ submit n state unfilled units min isBid tier extras
 stage id tx feeOk <orders> <omods> <accts> <amods> <matches>
 updorder n <mods>          updorders <ns> <modss>          updacct k <mods>
 complete | discard | reopen | spend
+acctspend k <expiry|multisig|unknown> tx height
 reconnect <err0|err1|mal|fin:tx|finw:tx> <removeOk>
 obs
 ```
@@ -177,6 +178,12 @@ def drvStep (db : DB) (args : List String) : DB × String :=
     match k.toNat?, modList? amod? ms with
     | some k, some ms => doOp db (.updateAccount k ms)
     | _, _ => (db, "bad-op")
+  | ["acctspend", k, w, tx, h] =>
+    let w? : Option Witness := if w == "expiry" then some .expiry else if w == "multisig" then some .multiSig
+      else if w == "unknown" then some .unknown else none
+    match k.toNat?, w?, tx.toNat?, h.toNat? with
+    | some k, some w, some tx, some h => doOp db (.accountSpend k w tx h)
+    | _, _, _, _ => (db, "bad-op")
   | ["reconnect", r, rm] =>
     match rpc? r, bool? rm with
     | some r, some rm =>
